@@ -39,7 +39,9 @@ type (
 	entry    = wal.Entry[V, H, A]
 )
 
-const h0 = types.Height(5) // first height of every run; "committed" starts at h0-1
+// first height of every run; "committed" starts at h0-1. Above 256 so that the Pre255 configurations can put 255 prune
+// records (heights 1..255) below it; 305 = 1 mod 4 keeps the proposer rotation of the scripts.
+const h0 = types.Height(305)
 
 // ---------- validator set ----------
 
